@@ -1826,3 +1826,193 @@ def ord17_manual_slot(P, R, L, rule="ORD-17"):
         ok = bool(sets) and bool(sch)
         R.check(rule, f.path + "|request-installed-and-scheduled", ok, where(f),
                 "force_level_compaction installs its request and schedules the worker", "stores=%d schedule sites=%d" % (len(sets), len(sch)))
+
+
+# ------------------------------------------------------------------------------------------- PAIR-7 direction agreement of iterators
+ITER_TRAIT = "iterator::RainDbIterator"
+DIRECTION_TABLE = [
+    # (self type, forward helper, backward helper, mode for next/prev)
+    ("tables::table::TwoLevelIterator", "tables::table::TwoLevelIterator::skip_empty_data_blocks_forward",
+     "tables::table::TwoLevelIterator::skip_empty_data_blocks_backward", "exhausted"),
+    ("versioning::file_iterators::FilesEntryIterator", "versioning::file_iterators::FilesEntryIterator::skip_empty_table_files_forward",
+     "versioning::file_iterators::FilesEntryIterator::skip_empty_table_files_backward", "exhausted"),
+    ("versioning::file_iterators::MergingIterator", "versioning::file_iterators::MergingIterator::find_smallest",
+     "versioning::file_iterators::MergingIterator::find_largest", "value"),
+    ("iterator::DatabaseIterator", "iterator::DatabaseIterator::find_next_client_entry",
+     "iterator::DatabaseIterator::find_prev_client_entry", "value"),
+]
+FORWARD_METHODS = ("seek", "seek_to_first", "next")
+BACKWARD_METHODS = ("seek_to_last", "prev")
+
+
+def static_sites_reaching(P, body, name, depth=4):
+    """call sites of `body` that call `name` directly or through statically dispatched local helpers (dyn calls are
+    not followed: a child iterator's method is not this iterator's helper)"""
+    def reaches(path, d, seen):
+        if d < 0 or path in seen or path not in P.bodies:
+            return False
+        seen.add(path)
+        for c in P.bodies[path].calls():
+            if c.name == name:
+                return True
+            if c.t.get("local") and not c.t.get("dyn") and c.t.get("resolved") in P.bodies and reaches(c.t["resolved"], d - 1, seen):
+                return True
+        return False
+    out = []
+    for c in body.calls():
+        if body.is_cleanup(c.bb):
+            continue
+        if c.name == name:
+            out.append(c)
+        elif c.t.get("local") and not c.t.get("dyn") and c.t.get("resolved") in P.bodies and c.t["resolved"] != body.path \
+                and reaches(c.t["resolved"], depth, set()):
+            out.append(c)
+    return out
+
+
+def pair7_direction(P, R, L, rule="PAIR-7", types=None):
+    n = 0
+    for (ty, fwd, bwd, mode) in DIRECTION_TABLE:
+        if types and ty not in types:
+            continue
+        for meth in FORWARD_METHODS + BACKWARD_METHODS:
+            path = "<%s as %s>::%s" % (ty, ITER_TRAIT, meth)
+            b = P.body(path)
+            if b is None:
+                R.missing_anchor(rule, path)
+                continue
+            R.analysed(b)
+            n += 1
+            want, other = (fwd, bwd) if meth in FORWARD_METHODS else (bwd, fwd)
+            ws = static_sites_reaching(P, b, want)
+            os_ = static_sites_reaching(P, b, other)
+            ok = bool(ws) and not os_
+            det = []
+            if os_:
+                det.append("calls the helper of the opposite direction (%s)" % other.rsplit("::", 1)[1])
+            if not ws:
+                det.append("never calls %s" % want.rsplit("::", 1)[1])
+            elif meth.startswith("seek"):
+                # every Ok return passes the helper, except paths on which the inner iterator is known invalid
+                # (DatabaseIterator::seek: `if inner.is_valid() { find_next } else { is_valid = false }`)
+                oks = _ok_blocks(b)
+                inval = [s[0] for s in field_stores(b, "is_valid", const=0)]
+                if not oks or not all(b.must_pass(x, through_nodes=[w.bb for w in ws] + inval) for x in oks):
+                    ok = False
+                    det.append("an Ok return is reachable without positioning through %s" % want.rsplit("::", 1)[1])
+            elif mode == "value":
+                # a path that yields a value (ends in `current()`) must have passed the helper
+                cur = [c for c in b.calls() if not b.is_cleanup(c.bb) and (c.name or "").endswith("::current") and c.dest["l"] == 0]
+                if not cur or not all(b.must_pass(c.bb, through_nodes=[w.bb for w in ws]) for c in cur):
+                    ok = False
+                    det.append("a value is returned without passing %s" % want.rsplit("::", 1)[1])
+            else:
+                # exhausted: when the child iterator runs out (its next()/prev() returned None) the helper runs
+                inner = [c for c in b.calls() if not b.is_cleanup(c.bb) and (c.declared_name or "") == "%s::%s" % (ITER_TRAIT, meth)]
+                good = False
+                for c in inner:
+                    for t_ in b.calls():
+                        if t_.name == "std::option::Option::is_none" and t_.args and roots(b, t_.args[0]) & {c.dest["l"]}:
+                            for tt in _bt(b, t_.dest["l"]):
+                                for e in tt.ok:
+                                    if all(b.must_pass(r, through_nodes=[w.bb for w in ws], start=e) for r in b.return_blocks()):
+                                        good = True
+                if not good:
+                    ok = False
+                    det.append("when the child runs out the iterator does not move on through %s" % want.rsplit("::", 1)[1])
+            R.check(rule, "%s|direction" % path, ok, where(b),
+                    "%s positions through %s and never through the opposite-direction helper" % (meth, want.rsplit("::", 1)[1]), "; ".join(det))
+    R.floor(rule, "iterator positioning methods checked", n, 5 * len([t for t in DIRECTION_TABLE if not types or t[0] in types]))
+    # direction field of the merging / database iterator
+    for (ty, variants_field) in (("versioning::file_iterators::MergingIterator", "direction"), ("iterator::DatabaseIterator", "direction")):
+        if types and ty not in types:
+            continue
+        for meth, want in (("seek", "Forward"), ("seek_to_first", "Forward"), ("seek_to_last", "Backward")):
+            b = P.body("<%s as %s>::%s" % (ty, ITER_TRAIT, meth))
+            if b is None:
+                continue
+            st = field_stores(b, "direction")
+            vs = set()
+            for s in st:
+                vs |= {v for v in stored_variants(b, s[2]) if v}
+                rv = s[2]["rv"]
+                if rv["k"] == "use" and rv["ops"][0]["k"] == "const":
+                    txt = rv["ops"][0].get("text") or ""
+                    vs |= {x for x in ("Forward", "Backward") if x in txt}
+            R.check(rule, "%s|direction-field" % b.path, vs == {want}, where(b),
+                    "%s records the iteration direction %s" % (meth, want), "stores %s" % sorted(vs))
+
+
+# ------------------------------------------------------------------------------------------- GRD-11 block offset on reopen
+def grd11_reopen_offset(P, R, L, rule="GRD-11"):
+    """LogWriter::new: the writer's block offset is `file length % BLOCK_SIZE` for every non-empty existing file: the
+    value stored into current_block_offset derives from `len() % const`, and any comparison guarding that computation
+    compares the length with 0 only."""
+    b = None
+    for p in P.bodies:
+        if p.startswith("logs::LogWriter::new") and "closure" not in p:
+            b = P.bodies[p]
+    if b is None:
+        return R.missing_anchor(rule, "logs::LogWriter::new")
+    R.analysed(b)
+    is_len = lambda os_: any(o.kind == "call" and (o.name or "").endswith("::len") for o in os_)
+    rems = []
+    for bb in range(b.n):
+        if b.is_cleanup(bb):
+            continue
+        for st in b.blocks[bb]["stmts"]:
+            if st["k"] == "assign" and st["rv"]["k"] == "binop" and st["rv"]["op"] == "Rem" and is_len(origins(b, st["rv"]["ops"][0])):
+                cv = [o.name for o in origins(b, st["rv"]["ops"][1]) if o.kind == "const"]
+                rems.append((bb, st["line"], cv))
+    ok = bool(rems)
+    det = []
+    # the struct literal's current_block_offset derives from the Rem (or the constant 0 for an empty file)
+    agg_ok = False
+    for bb in b.blocks:
+        for st in bb["stmts"]:
+            if st["k"] == "assign" and st["rv"]["k"] == "aggregate" and (st["rv"].get("adt") or "").endswith("logs::LogWriter"):
+                fs = st["rv"]["fields"]
+                if "current_block_offset" in fs:
+                    os_ = origins(b, st["rv"]["ops"][fs.index("current_block_offset")])
+                    if any(o.kind == "binop" and o.name == "Rem" for o in os_) and all(
+                            (o.kind == "binop" and o.name == "Rem") or (o.kind == "const" and o.name == "0") for o in os_):
+                        agg_ok = True
+    if not agg_ok:
+        ok = False
+        det.append("current_block_offset is not `len % BLOCK_SIZE` (or 0)")
+    for (bb, line, cv) in rems:
+        for c in comparisons(b):
+            if not b.must_pass(bb, through_edges=[(c.bb, t) for t in c.true_t]) and not b.must_pass(bb, through_edges=[(c.bb, t) for t in c.false_t]):
+                continue   # this comparison does not control the computation
+            lo, ro = c.lhs_origins(), c.rhs_origins()
+            if is_len(lo) or is_len(ro):
+                other = ro if is_len(lo) else lo
+                if not any(o.kind == "const" and o.name == "0" for o in other):
+                    ok = False
+                    det.append("line %s: the offset computation is guarded by a comparison of the file length with something other than 0" % c.line)
+    R.check(rule, b.path + "|block-offset-from-file-length", ok, where(b),
+            "a re-opened log continues at block offset `len % BLOCK_SIZE` for every non-empty file", "; ".join(det) or "rem sites %s" % [(l, c) for (_, l, c) in rems])
+    # writer and reader agree on the block size and header length constants used in the trailer test
+    w = P.body("logs::LogWriter::append")
+    r = P.body(READ_PHYS)
+    if w is not None and r is not None:
+        R.analysed(w, r)
+
+        def trailer_tests(body):
+            out = set()
+            for c in comparisons(body):
+                for side, oth in ((c.lhs, c.rhs), (c.rhs, c.lhs)):
+                    so = origins(body, side)
+                    subs = [o for o in so if o.kind == "binop" and o.name.startswith("Sub") and o.extra]
+                    if subs or any("current_block_offset" in o.path for o in so):
+                        k = tuple(sorted(str(o.name) for o in origins(body, oth) if o.kind == "const"))
+                        bs = tuple(sorted({str(x.name) for s_ in subs for op_ in s_.extra[1]["rv"]["ops"] for x in origins(body, op_) if x.kind == "const"}))
+                        opn = c.op if side is c.lhs else __import__("rdbcheck.rules", fromlist=["SWAP"]).SWAP[c.op]
+                        if k:
+                            out.add((opn, k, bs))
+            return out
+        tw, tr = trailer_tests(w), trailer_tests(r)
+        common_ = tw & tr
+        R.check(rule, "logs|writer-reader-trailer-agreement", bool(common_), where(w),
+                "writer and reader decide 'no room for a header in this block' with the same relation and constants",
+                "writer %s reader %s" % (sorted(tw), sorted(tr)))
